@@ -288,7 +288,7 @@ func c13Apply(sel *SelectStatement, op int) {
 }
 
 func vfH_C13_select(tier int) {
-	g := &c13Gen{budget: 1 + tier}
+	g := &c13Gen{budget: 1 + tier/2} // thorough: pairwise odd constructs x 26 operations do not fit (> 30 min); same shapes as quick
 	g.raw("SELECT ")
 	nf := 1 + g.pick(2)
 	for i := 0; i < nf; i++ {
